@@ -342,7 +342,9 @@ func lowestCommonParent[V any, L nodeLeaf[V]](root nodeRef, prefix []byte) nodeR
 	// follow the one path the prefix bytes select, every key that starts
 	// with prefix lives below the deepest node reached this way
 	for n.tag != nodeKindLeaf {
-		idx := prefixMismatch[V, L](n, prefix, depth)
+		// for a path longer than the inline bytes the comparison runs on
+		// into the smallest leaf, only the path itself counts here
+		idx := min(prefixMismatch[V, L](n, prefix, depth), int(n.node().prefixLen))
 		depth += idx
 
 		if depth >= len(prefix) || idx < int(n.node().prefixLen) {
